@@ -158,6 +158,11 @@ def gen_raw(seed, tier):
         cons = burst
         script = [W, D(0), P, D(1)] if t % 2 == 0 else [F, N, N, P, D(0)]
         if t % 3 == 0:
+            # a burst longer than the channel on one signal, over before the consumer starts
+            burst = rnd.randint(6, 9)
+            acts = [dl(S1, 100 + i) for i in range(burst)] + [CONS]
+            cons = burst
+            script = [W, D(0), P, D(1)]
             # sequential burst, then the consumer
             sched = [x for i in range(burst) for x in [i] * 60] + [cons] * LONG
         else:
@@ -383,6 +388,15 @@ def mon_c10(s, r):
             seen[(g, mk)] = idx
             order.setdefault(g, []).append(mk)
     if s.exraw:
+        # a burst that is over before the consumer starts: exactly the first CHAN_SLOTS records, in order
+        cons = s.consumer()
+        first_cons = min([i for i, l in enumerate(tr) if l[0] == cons and l[1] in STEP_OPS] + [10 ** 9])
+        if r.get('drained') and all(r['finished']):
+            for g, mks in delivered.items():
+                if all(ended.get((g, m), 10 ** 9) < first_cons for m in mks):
+                    seq = sorted(mks, key=lambda m: started[(g, m)])
+                    if order.get(g, []) != seq[:5]:
+                        viol.append(('burst', -1, 'burst of %d deliveries of signal %d (markers %s) before the consumer started: yielded %s, expected the first 5 in order' % (len(mks), g, seq, order.get(g, []))))
         for g, mks in order.items():
             for i in range(len(mks)):
                 for j in range(i + 1, len(mks)):
